@@ -10,6 +10,9 @@
   proxy (path ends UNKNOWN);
 * `binascii.hexlify(<symbolic bytes>)` (via `debugging.btox`): same.
 
+* `str(<symbolic bytes>, 'ascii')` (in `debugging.btox`): CrossHair's `str` patch passes the
+  two-argument form to the C constructor, which refuses the proxy.
+
 This module registers exact models for them **in the worker process of a C18 obligation
 only** (it is imported by vf/harness/C18.py; when crosshair is not loaded - plain replay,
 the repository's interpreter, the ./check front end - it does nothing).  Every model is an
@@ -67,7 +70,7 @@ def xor_const(a, c):
 
 def hex_value(c):
     """value of one base-16 digit given its code point c (assumed a valid hex digit)"""
-    return c - 48 - 7 * (c // 65) - 32 * (c // 97)
+    return c - 48 - 7 * (c >= 65) - 32 * (c >= 97)
 
 
 def hex_valid(c):
@@ -76,7 +79,7 @@ def hex_valid(c):
 
 def hex_digit(v):
     """code point of the lower-case base-16 digit of 0 <= v <= 15"""
-    return 48 + v + 39 * (v // 10)
+    return 48 + v + 39 * (v >= 10)
 
 
 def py_unhexlify(s):
@@ -104,6 +107,17 @@ def py_hexlify(data):
     return bytes(out)
 
 
+def py_decode_ascii(data):
+    ok = True
+    t = ''
+    for x in data:
+        ok = ok & (x < 128)
+        t = t + chr(x)
+    if not ok:
+        raise UnicodeDecodeError("ascii", bytes(data), 0, 1, "ordinal not in range(128)")
+    return t
+
+
 def conformance():
     bad = []
     for a in (0, 1, 0x01020304, 0xC0A800FF, 0xFFFFFFFF, 0x80000000, 0x7FFFFFFF, -1, -77, 12345678901):
@@ -123,6 +137,13 @@ def conformance():
     for b in (b"", b"\x00", b"\xff\x0a\x9f\xa0", bytes(range(256))):
         if py_hexlify(b) != binascii.hexlify(b):
             bad.append(("hexlify", b))
+        if py_decode_ascii(py_hexlify(b)) != str(binascii.hexlify(b), "ascii"):
+            bad.append(("decode", b))
+    try:
+        py_decode_ascii(b"\x80")
+        bad.append(("decode accepts", b"\x80"))
+    except UnicodeDecodeError:
+        pass
     return bad
 
 
@@ -173,4 +194,23 @@ def install():
 
     _PATCH_REGISTRATIONS[binascii.unhexlify] = _unhexlify
     _PATCH_REGISTRATIONS[binascii.hexlify] = _hexlify
+
+    from crosshair.tracers import ResumedTracing
+
+    def _str(*a, **kw):
+        # str(<symbolic octets>, 'ascii'): decode code point by code point; everything
+        # else as CrossHair's own patch of str does it (a patch cannot delegate to the
+        # patch it replaces: calls made from the replaced one would come back here)
+        if len(a) == 2 and not kw and not concrete(a[0]) and concrete(a[1]) and a[1] in ("ascii", "us-ascii"):
+            return py_decode_ascii(a[0])
+        with NoTracing():
+            if len(a) == 1 and not kw:
+                (x,) = a
+                if isinstance(x, B.AnySymbolicStr):
+                    return x
+                with ResumedTracing():
+                    return B.invoke_dunder(x, "__str__")
+        return str(*a, **kw)
+
+    _PATCH_REGISTRATIONS[str] = _str
     return True
